@@ -53,6 +53,9 @@ func ruleC05Window(c *Ctx) {
 		if _, isSlice := sl.X.Type().Underlying().(*types.Slice); !isSlice {
 			return // make([]T, k) lowering: a slice of a fresh array
 		}
+		if shortType(sl.X.Type()) != "[]any" {
+			return // not the result sequence (e.g. the post-processor list being reset)
+		}
 		slices = append(slices, sl)
 	})
 	for i, sl := range slices {
